@@ -47,7 +47,10 @@ Definition run_c02 := run_sm proj_c02 mon_true.
 Definition run_c04 := run_sm proj_c04 mon_true.
 Definition mon_c05 (c : smcase) (t : list action) : bool := match c with KSm ep _ _ _ _ _ _ _ => accepts step5 (init5 ep) t end.
 Definition run_c05 := run_sm proj_c05 mon_c05.
-Definition run_c06 := run_sm proj_c06 mon_true.
+Definition mon_c06 (c : smcase) (t : list action) : bool :=
+  match c with KSm ep _ _ cup _ e _ _ =>
+    accepts step6 (init6 ep cup (e_store e)) t && accepts step6ids {| i_in := false; i_sess := None; i_reqs := [] |} t end.
+Definition run_c06 := run_sm proj_c06 mon_c06.
 Definition mon_c07 (c : smcase) (t : list action) : bool := match c with KSm _ _ _ cup _ e _ _ => accepts step7 (init7 cup (e_store e)) t end.
 Definition run_c07 := run_sm proj_c07 mon_c07.
 Definition run_c08 := run_sm proj_c08 mon_true.
